@@ -138,6 +138,7 @@ class OperationGroup(ContextMixin, ContentMixin):
         branch = self.branch or self.shell.blocks[f'head~{MAX_OPERATIONS_TTL - ttl}'].hash()
         source = self.key.public_key_hash()
         constants = self.shell.head.context.constants()
+        signature_size = 96 if self.key.curve == b'BL' else 64
 
         if counter is not None:
             self.context.set_counter(counter - 1)  # which is supposedly the current state (head)
@@ -172,7 +173,7 @@ class OperationGroup(ContextMixin, ContentMixin):
                     storage_limit if storage_limit is not None else default_storage_limit(x, constants),
                 )
             ),
-            'fee': lambda i, x: str(default_fee(x, gas_limit, minimal_nanotez_per_gas_unit)),  # every content pays for its own size and gas
+            'fee': lambda i, x: str(default_fee(x, gas_limit, minimal_nanotez_per_gas_unit, signature_size=signature_size)),  # every content pays for its own size and gas
         }
 
         def fill_content(idx, content):
@@ -271,7 +272,7 @@ class OperationGroup(ContextMixin, ContentMixin):
             raise RpcError.from_errors(OperationResult.errors(opg_with_metadata))
 
         fee_acc = 0
-        extra_size = 32 + 64  # size of serialized branch and signature + safe reserve
+        extra_size = 32 + (96 if self.key.curve == b'BL' else 64)  # size of serialized branch and signature + safe reserve
         num_contents = len(opg_with_metadata['contents'])
         counter_offset = self.context.get_counter_offset()
         opg.contents.clear()
